@@ -31,7 +31,8 @@ def exc_class(name):
     if name == 'FilterException':
         import lazy_dataset
         return lazy_dataset.FilterException
-    return {'VErrA': VErrA, 'VErrB': VErrB, 'VErrC': VErrC, 'VBase': VBase, 'Exception': Exception}[name]
+    return {'VErrA': VErrA, 'VErrB': VErrB, 'VErrC': VErrC, 'VBase': VBase, 'Exception': Exception,
+            'ValueError': ValueError, 'LookupError': LookupError, 'KeyError': KeyError}[name]
 
 
 def exc_spec(spec):
